@@ -89,6 +89,7 @@ struct Inst {
         for (int i = 0; i < 3; i++) {
             model[i].clear();
             off[i] = (mixed && i == 1) ? offsetof(Elem, node2) : offsetof(Elem, node);
+            memset(&dl[i], 0xA5, sizeof dl[i]);      // init must set every field itself
             cstl_dlist_init(&dl[i], off[i]);
         }
     }
